@@ -714,3 +714,70 @@ fn find_query_semantics() {
     }
     println!("NO-WITNESS find_query_semantics");
 }
+
+/// bounded stand-in for the data-search part of C10 (DataValue::test and find_data: string parsing, floats and boxed iterators are
+/// outside the verifier's reach): 13 values of five types under two keys, 19 operators: test() agrees with the documented
+/// comparison semantics (written out independently below) and find_data by key, by value and by both returns exactly the items
+/// a full scan selects
+#[test]
+fn find_data_search() {
+    let mk_values = || -> Vec<DataValue> { vec![DataValue::Null, DataValue::Bool(true), DataValue::Bool(false), DataValue::Int(-1), DataValue::Int(0), DataValue::Int(5),
+        DataValue::Float(0.5), DataValue::Float(5.0), DataValue::String("5".into()), DataValue::String("x".into()), DataValue::String("true".into()), DataValue::String("".into()), DataValue::String("5.0".into())] };
+    let mk_ops = || -> Vec<(&'static str, DataOperator<'static>)> { vec![
+        ("Any", DataOperator::Any), ("Null", DataOperator::Null), ("True", DataOperator::True), ("False", DataOperator::False),
+        ("Equals 5", DataOperator::Equals("5".into())), ("Equals x", DataOperator::Equals("x".into())), ("Equals true", DataOperator::Equals("true".into())), ("Equals 5.0", DataOperator::Equals("5.0".into())),
+        ("EqualsInt 5", DataOperator::EqualsInt(5)), ("GreaterThan 0", DataOperator::GreaterThan(0)), ("GreaterThanOrEqual 5", DataOperator::GreaterThanOrEqual(5)), ("LessThan 5", DataOperator::LessThan(5)), ("LessThanOrEqual 0", DataOperator::LessThanOrEqual(0)),
+        ("EqualsFloat 5.0", DataOperator::EqualsFloat(5.0)), ("GreaterThanFloat 0.4", DataOperator::GreaterThanFloat(0.4)), ("LessThanFloat 5.0", DataOperator::LessThanFloat(5.0)),
+        ("Not EqualsInt 5", DataOperator::Not(Box::new(DataOperator::EqualsInt(5)))),
+        ("And GreaterThan -2, LessThan 5", DataOperator::And(vec![DataOperator::GreaterThan(-2), DataOperator::LessThan(5)])),
+        ("Or EqualsInt 0, Equals x", DataOperator::Or(vec![DataOperator::EqualsInt(0), DataOperator::Equals("x".into())])),
+    ] };
+    // the documented semantics, written out independently of DataValue::test
+    fn oracle(v: &DataValue, name: &str) -> bool {
+        let int = |v: &DataValue| if let DataValue::Int(n) = v { Some(*n) } else { None };
+        let flt = |v: &DataValue| if let DataValue::Float(n) = v { Some(*n) } else { None };
+        let eq_str = |v: &DataValue, s: &str| match v {
+            DataValue::String(x) => x == s,
+            DataValue::Int(n) => s.parse::<isize>().map(|m| m == *n).unwrap_or(false),
+            DataValue::Float(f) => s.parse::<f64>().map(|m| m == *f).unwrap_or(false),
+            DataValue::Bool(b) => ["yes", "1", "enable", "enabled", "on", "true"].contains(&s.to_lowercase().as_str()) == *b,
+            _ => false };
+        match name {
+            "Any" => true, "Null" => matches!(v, DataValue::Null), "True" => matches!(v, DataValue::Bool(true)), "False" => matches!(v, DataValue::Bool(false)),
+            "Equals 5" => eq_str(v, "5"), "Equals x" => eq_str(v, "x"), "Equals true" => eq_str(v, "true"), "Equals 5.0" => eq_str(v, "5.0"),
+            "EqualsInt 5" => int(v) == Some(5), "GreaterThan 0" => int(v).map(|n| n > 0).unwrap_or(false), "GreaterThanOrEqual 5" => int(v).map(|n| n >= 5).unwrap_or(false),
+            "LessThan 5" => int(v).map(|n| n < 5).unwrap_or(false), "LessThanOrEqual 0" => int(v).map(|n| n <= 0).unwrap_or(false),
+            "EqualsFloat 5.0" => flt(v) == Some(5.0), "GreaterThanFloat 0.4" => flt(v).map(|n| n > 0.4).unwrap_or(false), "LessThanFloat 5.0" => flt(v).map(|n| n < 5.0).unwrap_or(false),
+            "Not EqualsInt 5" => int(v) != Some(5),
+            "And GreaterThan -2, LessThan 5" => int(v).map(|n| n > -2 && n < 5).unwrap_or(false),
+            "Or EqualsInt 0, Equals x" => int(v) == Some(0) || eq_str(v, "x"),
+            _ => unreachable!() }
+    }
+    let mut store = AnnotationStore::default().with_dataset(AnnotationDataSetBuilder::new().with_id("d")).unwrap();
+    {
+        let ds: &mut AnnotationDataSet = store.get_mut("d").unwrap();
+        for key in ["k0", "k1"] { for v in mk_values() { ds.insert_data(BuildItem::None, key, v, true).unwrap(); } }
+    }
+    let values = mk_values();
+    for (name, op) in mk_ops() {
+        for v in &values {
+            if v.test(&op) != oracle(v, name) { println!("WITNESS {{\"clause\":\"DataValue::test\",\"value\":\"{:?}\",\"operator\":{:?},\"test\":{},\"documented\":{}}}", v, name, v.test(&op), oracle(v, name)); return; }
+        }
+    }
+    let dataset = store.dataset("d").unwrap();
+    for key in ["k0", "k1"] { for (name, op) in mk_ops() {
+        let want: Vec<String> = dataset.data().filter(|d| d.key().as_str() == key && oracle(d.value(), name)).map(|d| format!("{:?}", d.handle())).collect();
+        let got: Vec<String> = dataset.find_data(key, op.clone()).map(|d| format!("{:?}", d.handle())).collect();
+        let mut g = got.clone(); g.sort(); let mut w = want.clone(); w.sort();
+        if g != w || got.len() != { let mut x = got.clone(); x.sort(); x.dedup(); x.len() } { println!("WITNESS {{\"clause\":\"find_data(key, operator) = scan\",\"key\":{:?},\"operator\":{:?},\"got\":\"{:?}\",\"want\":\"{:?}\"}}", key, name, got, want); return; }
+        let got2: Vec<String> = store.find_data("d", key, op).map(|d| format!("{:?}", d.handle())).collect();
+        let mut g2 = got2.clone(); g2.sort();
+        if g2 != w { println!("WITNESS {{\"clause\":\"AnnotationStore::find_data = scan\",\"key\":{:?},\"operator\":{:?},\"got\":\"{:?}\",\"want\":\"{:?}\"}}", key, name, got2, want); return; }
+    }}
+    for (name, op) in mk_ops() {
+        let mut want: Vec<String> = dataset.data().filter(|d| oracle(d.value(), name)).map(|d| format!("{:?}", d.handle())).collect(); want.sort();
+        let mut got: Vec<String> = dataset.find_data(false, op).map(|d| format!("{:?}", d.handle())).collect(); got.sort();
+        if got != want { println!("WITNESS {{\"clause\":\"find_data(any key, operator) = scan\",\"operator\":{:?},\"got\":\"{:?}\",\"want\":\"{:?}\"}}", name, got, want); return; }
+    }
+    println!("NO-WITNESS find_data_search");
+}
